@@ -26,11 +26,11 @@ var Redirects = map[string][2]string{
 
 // Unsupported std packages that would bypass the simulated environment.
 var Forbidden = map[string]string{
-	"os/exec":   "spawns real processes",
-	"os/signal": "real signals",
-	"syscall":   "direct system calls bypass the simulated os",
-	"net":       "real sockets",
-	"net/http":  "real sockets",
+	"os/exec":               "spawns real processes",
+	"os/signal":             "real signals",
+	"syscall":               "direct system calls bypass the simulated os",
+	"net":                   "real sockets",
+	"net/http":              "real sockets",
 	"golang.org/x/sys/unix": "direct system calls bypass the simulated os",
 }
 
@@ -44,11 +44,11 @@ type Site struct {
 
 // Result of instrumenting a tree.
 type Result struct {
-	Sites      []Site
-	Files      int
-	Overlay    map[string]string
-	Bypass     []string // forbidden imports found (file: path)
-	TestFiles  []string
+	Sites     []Site
+	Files     int
+	Overlay   map[string]string
+	Bypass    []string // forbidden imports found (file: path)
+	TestFiles []string
 }
 
 type edit struct {
